@@ -142,7 +142,13 @@ pub(crate) fn add(ctx: &mut TulispContext) {
         } else {
             0
         };
-        counter.set(TulispObject::from(count + 1))?;
+        let next_count = count.checked_add(1).ok_or_else(|| {
+            Error::new(
+                ErrorKind::OutOfRange,
+                "gensym: gensym-counter overflow".to_string(),
+            )
+        })?;
+        counter.set(TulispObject::from(next_count))?;
 
         make_symbol(format!("{prefix}{count}"))
     }
